@@ -1,7 +1,7 @@
 """C06 - the bus authenticates a peer only after a mechanism accepted it."""
 import binascii
 
-from ..engine import Spec, assume, check, reached, HarnessError, notrace, mkbytes
+from ..engine import Spec, assume, check, reached, HarnessError, notrace, mkbytes, concrete
 from ..runner import Ob
 from ..fakes import FakeTransport
 
@@ -477,7 +477,7 @@ def _build_e2e(mech):
 
     def h(nrej):
         assume(0 <= nrej <= 4)
-        nrej = int(nrej)          # fork: 5 concrete runs
+        nrej = concrete(nrej)          # fork: 5 concrete runs
         with notrace():
             return body(nrej)
 
